@@ -275,6 +275,107 @@ def make_precond_strategy(M, kind, f_total, f_bulk, xq, p_init):
     return Obj.PrecondStrategy(asm[kind])
 
 
+def recording_objective(M):
+    """Objective subclass that logs, in order, every assignment to .p and every hessian_vec / vec_jacobian_p<k> / apply_precond / update_precond
+    call together with the parameters the objective holds at that moment (the tie between model/M_C07_Rule.v and the executed reverse rule)"""
+    if 'Rec' in M:
+        return M['Rec']
+    Base = M['Obj'].Objective
+
+    class Rec(Base):
+        def __init__(self, *a, **k):
+            object.__setattr__(self, 'log', [])
+            super().__init__(*a, **k)
+
+        def __setattr__(self, name, val):
+            if name == 'p':
+                self.log.append(('set_p', val, None, None))
+            object.__setattr__(self, name, val)
+
+        def hessian_vec(self, x, vx):
+            self.log.append(('hessian_vec', self.p, x, None))
+            return super().hessian_vec(x, vx)
+
+        def apply_precond(self, vx):
+            self.log.append(('apply_precond', self.p, None, None))
+            return super().apply_precond(vx)
+
+        def update_precond(self, x):
+            self.log.append(('update_precond', self.p, x, None))
+            return super().update_precond(x)
+    for k in (0, 1, 2, 4):
+        def mk(k):
+            def meth(self, x, vp):
+                self.log.append(('vjp%d' % k, self.p, x, vp))
+                return getattr(Base, 'vec_jacobian_p%d' % k)(self, x, vp)
+            return meth
+        setattr(Rec, 'vec_jacobian_p%d' % k, mk(k))
+    M['Rec'] = Rec
+    return Rec
+
+
+def check_backward_trace(M, log, state_rule, plist, xs, vs, hess, cgres_of):
+    """the events of the reverse sweep against the denotation of the extracted rules: every evaluation on the objective happens at a forward
+    solution U_k, while objective.p holds the parameters of THAT solve (restored before the first evaluation); the vectors handed to the slot
+    helpers of one solve are one and the same lam, which solves H(U_k, p_k) lam = -v_k up to the CG tolerance; the slot helpers called are
+    exactly those of the present slots (state rule: 0,1,2,4; design rule: 2)."""
+    onp = M['onp']
+    bad, K = [], len(plist)
+
+    def same_params(a, b):
+        if a is None or len(a) != len(b):
+            return False
+        for s, t in zip(a, b):
+            if (s is None) != (t is None):
+                return False
+            if s is not None and not onp.array_equal(onp.array(s), onp.array(t)):
+                return False
+        return True
+
+    def step_of(x):
+        d = [float(onp.linalg.norm(onp.array(x) - onp.array(xs[k]))) for k in range(K)]
+        k = int(onp.argmin(d))
+        return k if d[k] <= 1e-6 * (1.0 + float(onp.linalg.norm(onp.array(xs[k])))) else None
+    seen = {k: dict(hv=0, vjp={}, set_before=False) for k in range(K)}
+    last_set = None
+    for name, p_at, x, w in log:
+        if name == 'set_p':
+            last_set = p_at
+            continue
+        if name in ('apply_precond', 'update_precond'):
+            continue
+        k = step_of(x)
+        if k is None:
+            bad.append('%s evaluated at a point that is not the solution of any forward solve' % name)
+            continue
+        if not same_params(p_at, plist[k]):
+            bad.append('%s of solve %d evaluated while objective.p holds other parameters than those of that solve' % (name, k + 1))
+        elif last_set is not None and same_params(last_set, plist[k]):
+            seen[k]['set_before'] = True
+        if name == 'hessian_vec':
+            seen[k]['hv'] += 1
+        else:
+            seen[k]['vjp'].setdefault(int(name[3:]), []).append(onp.array(w))
+    want = [0, 1, 2, 4] if state_rule else [2]
+    for k in range(K):
+        s = seen[k]
+        if sorted(s['vjp']) != want or any(len(v) != 1 for v in s['vjp'].values()):
+            bad.append('solve %d: slot helpers called in the reverse rule: %s, the extracted rule calls %s once each' % (k + 1, sorted(s['vjp']), want))
+            continue
+        if not s['set_before']:
+            bad.append('solve %d: objective.p was not assigned the parameters of that solve before the rule evaluated on the objective' % (k + 1))
+        lams = [v[0] for v in s['vjp'].values()]
+        if any(not onp.array_equal(lams[0], l) for l in lams[1:]):
+            bad.append('solve %d: the slot helpers received different adjoint vectors' % (k + 1))
+        res = float(onp.linalg.norm(hess[k] @ lams[0] + onp.array(vs[k])))
+        if not res <= 4.0 * cgres_of(k) + 1e-13:
+            bad.append('solve %d: the adjoint vector handed to the slot helpers leaves |H lam + v| = %.3g (CG tolerance %.3g)' % (k + 1, res, cgres_of(k)))
+        if s['hv'] == 0:
+            bad.append('solve %d: the reverse rule never applied the Hessian-vector operator at the forward solution' % (k + 1))
+    bad = list(dict.fromkeys(bad))
+    return bad, dict(events=len(log), hessian_vec=sum(s['hv'] for s in seen.values()))
+
+
 def run_precond(spec):
     """K >= 1 solves on ONE Objective whose preconditioner is exact or a deliberately poor approximation of the Hessian; the parameters of
     every step differ (and the state slot of step k depends on the solution of step k-1).  F = sum_k v_k . U_k is differentiated in reverse
@@ -315,7 +416,7 @@ def run_precond(spec):
         xs.append(U)
     try:
         with quiet():
-            obj = Obj.Objective(f, jnp.zeros(n), p, precondStrategy=make_precond_strategy(M, spec['precond'], f, f_bulk, xq, p))
+            obj = recording_objective(M)(f, jnp.zeros(n), p, precondStrategy=make_precond_strategy(M, spec['precond'], f, f_bulk, xq, p))
             if state_rule:
                 def F(pl):
                     Uu, tot = jnp.zeros(n), 0.0
@@ -323,7 +424,9 @@ def run_precond(spec):
                         Uu = NLS.nonlinear_solve_with_state(obj, settings, Uu, pl[k])
                         tot = tot + vs[k] @ Uu
                     return tot
-                gp = jax.grad(F)(plist)
+                _, pull = jax.vjp(F, plist)
+                del obj.log[:]            # keep the events of the reverse sweep only
+                gp = pull(jnp.array(1.0))[0]
                 cots = [{j: onp.array(gp[k][j]) for j in (0, 1, 2, 4)} for k in range(K)]
                 absent = any(gp[k][3] is not None or gp[k][5] is not None for k in range(K))
             else:
@@ -333,9 +436,12 @@ def run_precond(spec):
                         Uu = NLS.nonlinear_solve(obj, settings, Uu, dl[k])
                         tot = tot + vs[k] @ Uu
                     return tot
-                gd = jax.grad(F)([pk[2] for pk in plist])
+                _, pull = jax.vjp(F, [pk[2] for pk in plist])
+                del obj.log[:]
+                gd = pull(jnp.array(1.0))[0]
                 cots = [{2: onp.array(gd[k])} for k in range(K)]
                 absent = False
+            trace = list(obj.log)
     except Exception as ex:
         return (['reverse mode through %d solve(s) with a %s preconditioner raised %s: %s' % (K, spec['precond'], type(ex).__name__, str(ex)[:200])],
                 dict(error=type(ex).__name__))
@@ -343,8 +449,16 @@ def run_precond(spec):
     if absent:
         bad.append('cotangent for an absent parameter slot (3 or 5) is not None')
     names = {0: 'bc_data', 1: 'state_data', 2: 'design_data', 4: 'time'}
+    Hs = [onp.array(h(xs[k], plist[k])) for k in range(K)]
+    cg_of = lambda k: max(settings.cg_tol, settings.cg_inexact_solve_ratio * float(onp.linalg.norm(onp.array(vs[k]))))
+    try:
+        tbad, tinfo = check_backward_trace(M, trace, state_rule, plist, xs, vs, Hs, cg_of)
+    except Exception as ex:
+        tbad, tinfo = ['the trace of the reverse sweep could not be matched with the extracted rule (%s: %s)' % (type(ex).__name__, str(ex)[:120])], {}
+    info['trace'] = tinfo
+    bad.extend('TRACE ' + b for b in tbad)
     for k in range(K):
-        H = onp.array(h(xs[k], plist[k]))
+        H = Hs[k]
         z = onp.linalg.solve(H, onp.array(vs[k]))
         hinv = float(onp.linalg.norm(onp.linalg.inv(H), 2))
         vn = float(onp.linalg.norm(onp.array(vs[k])))
@@ -553,9 +667,15 @@ def correspondence(ctx, model_ok):
             ctx.count('precond_slot_cotangents_compared', len([k for k in info if k.startswith('step')]))
         distinct.add(tuple(sorted((k, str(v)) for k, v in spec.items() if k != 'seed')))
         ctx.sample(dict(spec=spec, info=info), limit=4)
+        if spec['kind'] == 'precond':
+            ctx.count('reverse_sweep_trace_events_matched', int((info.get('trace') or {}).get('events', 0)))
         for b in bad:
             case = dict(spec)
             case.update(only_block_maps=bool(info.get('only_block_maps')))
+            if b.startswith('TRACE '):
+                ctx.fail('correspondence', '%s case %s: executed reverse rule vs the extracted rule (model/M_C07_Rule.v): %s'
+                         % (spec['kind'], {k: v for k, v in spec.items() if k != 'kind'}, b[6:]), case=case, concrete=True)
+                continue
             ctx.fail('conclusion', '%s case %s: %s' % (spec['kind'], {k: v for k, v in spec.items() if k != 'kind'}, b), case=case, concrete=True)
     ctx.count('distinct_nontrivial', len(distinct))
     if model_ok:
